@@ -62,9 +62,12 @@ impl TestRunnerAdapter {
             while thread_is_connected.load(Ordering::Relaxed) {
                 #[cfg(mos_verif)]
                 crate::verif_hooks::point_mutex("m:state.lock", &thread_state);
-                let state = *thread_state.lock().unwrap();
-                match state {
+                // The state stays locked while a breakpoint is checked and an instruction is executed, so a pause
+                // (or a step) cannot slip in between and report a program counter the CPU has already left
+                let mut state = thread_state.lock().unwrap();
+                match *state {
                     MachineRunningState::Launching | MachineRunningState::Stopped(_) => {
+                        drop(state);
                         #[cfg(mos_verif)]
                         if crate::verif_hooks::yield_point("m:idle") {
                             continue;
@@ -89,7 +92,6 @@ impl TestRunnerAdapter {
                                 {
                                     #[cfg(mos_verif)]
                                     crate::verif_hooks::point_mutex("m:state.lock2", &thread_state);
-                                    let mut state = thread_state.lock().unwrap();
                                     let old = *state;
                                     let new = MachineRunningState::Stopped(pc);
                                     *state = new;
@@ -270,12 +272,16 @@ impl MachineAdapter for TestRunnerAdapter {
     }
 
     fn pause(&mut self) -> MosResult<()> {
+        // Lock the state first: once we have it the machine thread is in between two instructions and stays there
+        let mut state = self.state.lock().unwrap();
         #[cfg(mos_verif)]
         crate::verif_hooks::point_read("s:pause.read", &self.runner);
         let pc = self.runner.read().unwrap().cpu().get_program_counter();
-        self.update_state(MachineRunningState::Stopped(ProgramCounter::new(
-            pc as usize,
-        )))?;
+        let old = *state;
+        let new = MachineRunningState::Stopped(ProgramCounter::new(pc as usize));
+        *state = new;
+        self.event_sender
+            .send(MachineEvent::RunningStateChanged { old, new })?;
         Ok(())
     }
 
